@@ -60,6 +60,7 @@ fn main() {
     out::silence_panics();
     trap::install();
     cpu::install();
+    trap::mmu_install();
     let mut o = Out::create(&args.out);
     match args.family.as_str() {
         "addr" => match args.prop.as_str() {
@@ -74,8 +75,13 @@ fn main() {
         "ports" => cpufam::run_ports(&mut o, args.seed, args.n),
         "intr" => cpufam::run_intr(&mut o, args.seed, args.n),
         "flush" => cpufam::run_flush(&mut o, args.seed, args.n),
+        "rptnew" => {
+            out::Ev::new("x");
+            o.emit(out::Ev::new("reset").str("kind", "none").w("root", 0).n("rix", -1).w("offset", 0).words("pool", &[]));
+            pt::run_rpt_new(&mut o, args.seed, args.n)
+        }
         "pt" => {
-            let kinds: Vec<&str> = if args.mode.is_empty() { vec!["mapped", "offset"] } else { args.mode.split(',').collect() };
+            let kinds: Vec<&str> = if args.mode.is_empty() { vec!["mapped", "offset", "recursive"] } else { args.mode.split(',').collect() };
             pt::run_random(&mut o, args.seed, args.n, &kinds, &args.prop)
         }
         _ => usage(),
